@@ -213,6 +213,27 @@ Family const &optional_family()
       cx.end();
       cx.result(res, shape == 2 ? std::vector<int>{0} : std::vector<int>{});
     }));
+    // ---- filter with a predicate that takes its argument BY VALUE (a callable shape the concept
+    // admits), rvalue optional. The one copy of the element into the predicate's parameter is what
+    // the caller asked for - filter has to keep the element in order to return it - so exactly that
+    // copy is taken out of the log; what is demanded: the accepted element comes back alive (not a
+    // moved-from shell) and nothing is read or moved after having been moved from.
+    r.push_back(entry1("optional::filter (by-value predicate)", 3, only_rv{}, [](Ctx &cx, int shape, auto c) {
+      using C = decltype(c);
+      opt o = make_opt(shape >= 1, 0);
+      cx.arg<C>(o);
+      cx.begin();
+      opt res = fcppt::optional::filter(pass<C>(o), pred_by_value{shape == 2 ? 1U : 0U});
+      cx.end();
+      auto &ev = lg().events;
+      for (auto it = ev.begin(); it != ev.end(); ++it)
+        if (it->kind == Ev::copy_ctor && it->origin == 0 && it->src_state == st_alive)
+        {
+          ev.erase(it);
+          break;
+        }
+      cx.result(res, shape == 2 ? std::vector<int>{0} : std::vector<int>{});
+    }));
     // ---- cat: "if e is set to x, then x is inserted into the target container"
     r.push_back(entry1("optional::cat", -2, any_cat{}, [](Ctx &cx, int shape, auto c) {
       using C = decltype(c);
